@@ -560,6 +560,12 @@ def compare(obs, m):
   if not m['accepted']:
     k = len(m['steps'])
     return (f"model rejects choice #{k} (real step {obs['steps'][k] if k < len(obs['steps']) else None}) taken by the real code")
+  for t, th in enumerate(case['threads']):      # scheda: the observed script has the shape the theorems assume (body ++ [finaliser])
+    for j, o in enumerate(th['ops']):
+      if o['op'] == 'as_completed' and j < len(obs['results'][t]) and obs['results'][t][j] != 'never-started':
+        log = obs.get('alog', {}).get(str(t), [])
+        if not log or log[-1]['op'] != 'finalize':
+          return f'thread {t}: as_completed ended ({obs["results"][t][j]}) and the last pool operation of its body is not the finaliser release_all(): {log[-1:]}'
   if not m['prophecy_ok']:
     return 'driver: the schedule replayed on the pure xstep? against the discovered script of pieces differs from the first pass'
   real = [[t, ('start' if l == 'pstart' else l)] for t, l, _ in obs['steps']]
